@@ -65,7 +65,11 @@ class Tokenizer:
     def _cache_lines(self, tok: TokenInfo) -> None:
         """Remember the source line of every token read (blank and comment lines included)."""
         if tok.start[0] not in self._lines:
-            self._lines[tok.start[0]] = tok.line
+            # a token that spans rows (a triple-quoted string) carries all of them: one entry per physical line
+            parts = tok.line.split("\n")
+            rows = [part + "\n" for part in parts[:-1]] + ([parts[-1]] if parts[-1] or len(parts) == 1 else [])
+            for row, text in enumerate(rows[: tok.end[0] - tok.start[0] + 1], tok.start[0]):
+                self._lines.setdefault(row, text)
 
     def _next_raw(self) -> TokenInfo:
         """Next token of the underlying generator; running past the end of input is a syntax error."""
